@@ -160,7 +160,7 @@ def history_task(task):
             n = int(rng.integers(2, task.get("nmax", 8) + 1))
             D = int(rng.integers(1, 4))
             G = int(rng.choice([3, 5, 11, 21]))
-            kind = str(rng.choice(["moderate", "smooth", "binom", "flat"], p=[0.4, 0.3, 0.2, 0.1]))
+            kind = str(rng.choice(["moderate", "smooth", "binom", "flat", "twins", "scales"], p=[0.3, 0.2, 0.15, 0.05, 0.15, 0.15]))
             op = float(rng.choice([0.0, 0.2]))
             data = gen.make_data(rng, n, D, G, kind=kind, outlier_prior=op)
             by_idx = {dp.idx: dp for dp in data}
